@@ -6,6 +6,11 @@
 #include <stdio.h>
 #ifdef __cplusplus
 extern "C" {
+/* Timeout discrimination.  Called from a SIGALRM handler with the period that just expired: returns 1 (and re-arms
+ * alarm(period)) while some OTHER thread of the process is runnable or in disk wait -- the run is slow or starved of
+ * CPU, not stuck -- up to `max_extensions` times; returns 0 when every other thread sleeps in two looks 300 ms apart
+ * (deadlock / lost wake-up) or the extensions are used up (livelock): only then is the timeout an observation. */
+int vrt_alarm_should_wait(unsigned period_s, int max_extensions);
 #endif
 
 /* ---- tracer ---- */
@@ -39,6 +44,8 @@ void vrt_fail_at(long k);
 long vrt_fail_count(void);               /* fallible calls counted since vrt_fail_at */
 int  vrt_fail_fired(void);
 void *vrt_fail_site(void);               /* return address of the failed call */
+void vrt_site_log_start(void);           /* record the return address of every fallible call from now on (indexed by K) */
+void vrt_site_log_dump(FILE *f, int per); /* "site <addr> <count> <K...>": up to `per` indices spread over each distinct site */
 
 #ifdef __cplusplus
 }
